@@ -26,6 +26,7 @@ func genXCase(t *rapid.T, free bool) XCase {
 	if free {
 		c.FailPct = rapid.SampledFrom([]int{0, 20, 50}).Draw(t, "failpct")
 		c.Yields = rapid.IntRange(0, 4).Draw(t, "yields")
+		c.SlowDelete = rapid.Bool().Draw(t, "slowDelete")
 		return c
 	}
 	nd := rapid.IntRange(0, 60).Draw(t, "ndecs")
